@@ -322,6 +322,10 @@ pub fn c02_case(cfg: &Cfg, rep: &mut Report, case_seed: u64, nm: usize) {
 
 pub fn c02_check(cfg: &Cfg, rep: &mut Report, case_seed: u64, case: &SmallCase) {
     let mut rng = Rng::new(case_seed ^ 0xC02);
+    // "all variable orders" includes orders obtained by re-sorting one parser between instantiations
+    if rng.chance(1, 3) && !crate::meta::reused_parser_check(rep, case, &mut rng, case_seed) {
+        return;
+    }
     let want = case.sem.complete();
     let grounded = case.sem.grounded();
     rep.evaluations += 1;
